@@ -26,3 +26,16 @@ Definition pre_doc (size capacity : Z) (o : op) : bool :=
   | OInsertStrSub index src indexStr _ => (index <=? size) && (indexStr <=? zlen src)
   | OErasePos pos => pos <? size
   end.
+
+(* [string.cons] / [string.append] / [string.assign]: basic_string(str, pos[, n]), append(str, pos, n), assign(str, pos, n)
+   throw out_of_range if pos > str.size() — in the exception-free library a precondition, which insert(index, str,
+   index_str, count), replace(pos, count, str, pos2, count2) and every string_view overload check.  The three inplace_string
+   overloads go through inplace_string::substr instead, which is documented to return an empty string for such a pos, and
+   tests/string pins it (`str.append(emptySrc, 1)` must leave str unchanged): recorded as
+   KF-C05-string-substr-pos-unchecked.  [pre_std] = [pre_doc] plus the standard's condition on pos *)
+Definition substr_pos_ok (o : op) : bool :=
+  match o with
+  | OAppendStrSub src pos _ | OAssignStrSub src pos _ => pos <=? zlen src
+  | _ => true
+  end.
+Definition pre_std (size capacity : Z) (o : op) : bool := pre_doc size capacity o && substr_pos_ok o.
